@@ -1,3 +1,4 @@
+import PallasVerif.Proofs.P2PProtoTie
 import PallasVerif.Proofs.P2PSync
 /-!
 # C28 — The P2P initiator never violates a protocol it speaks
@@ -125,5 +126,10 @@ example : ∀ a, a ∈ lockstep → a.ok := by
 example : (syncRun (Sys.init cfgW) lockstep).map
     (fun y => (y.observed.length, (match y.links 0 with | .up l => some (l.w.hs, l.w.ka, l.w.ps) | _ => none), y.st.cold)) =
     some (0, some (SHs.done, SKa.server, SPs.idle), [7]) := by decide
+
+/-- the protocol machines used by the model are those of the sources (table regenerated on every run) -/
+theorem keepalive_machine_matches_source (s : KaSt) (m : KaMsg) :
+    (PallasVerif.Gen.FsmN2.keepalive.step (KaSt.cls s) (KaMsg.kind m)).next? = (s.apply m).map KaSt.cls :=
+  ka_matches_source s m
 
 end PallasVerif.Props.C28
